@@ -386,3 +386,24 @@ def option_set(ki: int, shape: int, kind: int, n: int, b: bool, s: str, x: int, 
         if was[0] == "ok" and not same(was[1], now[1]):
             return 0
     return 2
+
+
+# ---------------------------------------------------------------------------------------------------------
+@harness("C04", lemma="set-list-index", cubes={"idx": [0, 1]}, example=None, timeout=60,
+         bounds="Option('L.<idx>').set on a dictionary whose L is a two-element list; value and elements unbounded ints",
+         what="Option.set on a list-indexed key returns a dictionary in which the Option evaluates to the value set and the other "
+              "list element is intact (KNOWN FINDING on the unchanged tree: set builds {'L': {'0': v}}, which the Option cannot read back)")
+def set_list_index(idx: int, n: int, x: int, y: int) -> int:
+    o = {"L": [x, y], "A": 1}
+    opt = Option("L.%d" % idx)
+    r = outcome(lambda: opt.set(o, n))
+    if r[0] != "ok":
+        return 0
+    got = outcome(lambda: opt(r[1]))
+    other = outcome(lambda: Option("L.%d" % (1 - idx))(r[1]))
+    note("input", {"L": [x, y]}, "set", "L.%d" % idx, n, "result", r[1], "read back", got, "other element", other)
+    if got[0] != "ok" or not same(got[1], n):
+        return 0
+    if other[0] != "ok" or not same(other[1], y if idx == 0 else x):
+        return 0
+    return 2
